@@ -292,7 +292,8 @@ impl ConsumerGroup {
         new_consumer: &str, 
         min_idle_ms: u64, 
         ids: &[StreamId],
-        force: bool
+        force: bool,
+        in_stream: &[StreamId]
     ) -> Vec<StreamId> {
         let mut pending = self.pending.write().unwrap();
         let mut claimed = Vec::new();
@@ -331,6 +332,20 @@ impl ConsumerGroup {
                 
                 // Transfer ownership
                 pending.transfer_ownership(id, new_consumer.to_string());
+                claimed.push(*id);
+            } else if force && in_stream.contains(id) {
+                // Not pending for anybody: FORCE creates the pending entry
+                pending.add_entry(PendingEntry {
+                    id: *id,
+                    consumer: new_consumer.to_string(),
+                    delivered_at: now,
+                    delivery_count: 1,
+                    last_delivery: now,
+                });
+                if let Some(new_consumer_obj) = self.consumers.write().unwrap().get_mut(new_consumer) {
+                    new_consumer_obj.pending_count += 1;
+                }
+                *self.total_pending.lock().unwrap() += 1;
                 claimed.push(*id);
             }
         }
@@ -412,7 +427,7 @@ impl ConsumerGroup {
         drop(pending);
         
         // Claim the idle entries
-        let claimed = self.claim_messages(consumer, min_idle_ms, &idle_entries, false);
+        let claimed = self.claim_messages(consumer, min_idle_ms, &idle_entries, false, &[]);
         
         // Calculate next start ID
         let next_start = if let Some(last) = claimed.last() {
